@@ -41,7 +41,7 @@ def _judge(ctx: Ctx, lines, describe, kind, batch=3000, prefix=""):
         ctx.violation(f"{prefix}{r['clause']}:{suffix}", prefix + r["clause"], case, kind=kind)
 
 
-def judge_joins(ctx: Ctx, cases, kind="join"):
+def judge_joins(ctx: Ctx, cases, kind="join", prefix=""):
     lines = pmap(ps.join_case, cases, workers=ctx.workers, chunksize=256)
     seen = {"none": 0, "path": 0, "exc": 0}
     for t, (case, ln) in enumerate(zip(cases, lines)):
@@ -55,7 +55,7 @@ def judge_joins(ctx: Ctx, cases, kind="join"):
         if t % 4999 == 11:
             ctx.sample({"dir": case[0], "parts": case[1], "result": ln["r"]["kind"], "path": ps.txt(ln["r"]["v"])})
     ctx.count(len(lines))
-    _judge(ctx, lines, lambda ln: ("safe_join", {"dir": ps.txt(ln["dir"]), "parts": [ps.txt(p) for p in ln["parts"]]}), kind)
+    _judge(ctx, lines, lambda ln: ("safe_join", {"dir": ps.txt(ln["dir"]), "parts": [ps.txt(p) for p in ln["parts"]]}), kind, prefix=prefix)
     return seen
 
 
@@ -74,7 +74,7 @@ def judge_sans(ctx: Ctx, cases, kind="san"):
     return changed
 
 
-def judge_serves(ctx: Ctx, targets_by_api, tree, kind="serve", prefix=""):
+def judge_serves(ctx: Ctx, targets_by_api, tree, kind="serve", prefix="", case_extra=None):
     """targets_by_api: list of (api, raw target); requests run in this process (they chdir / import).
     One trace = a tree line (as seen from the api's exported root) + up to 400 requests."""
     lines, t, n_in_t, cur_root = [], 0, 0, None
@@ -112,7 +112,7 @@ def judge_serves(ctx: Ctx, targets_by_api, tree, kind="serve", prefix=""):
     def describe(ln):
         raw = ps.txt(ln.get("raw", [])).replace(tree.base, "{BASE}").replace(qbase, "{QBASE}")
         suffix = ln.get("api", "tree") + (":" + ln["exc"] if ln.get("exc") else "")
-        return suffix, {"api": ln.get("api"), "raw": raw}
+        return suffix, dict(case_extra or {}, api=ln.get("api"), raw=raw)
 
     _judge(ctx, lines, describe, kind, prefix=prefix)
     if stats["200"] == 0 or stats["404"] == 0:
@@ -256,6 +256,49 @@ def observations(ctx: Ctx, tree):
     ctx.notes["observation_windows_device_names_on_posix"] = {n: secure_filename(n) for n in ps.WINDOWS_DEVICE_NAMES}
 
 
+# --------------------------------------------------------------------------- reinterpretable spellings x which files exist
+def reinterp_requests(ctx: Ctx, probe, only=None):
+    """Double-encoded / overlong / fullwidth / backslash / home-directory spellings (after the server's single
+    decoding) through every entry point, over a tree where the literal name exists inside the root ("L") and over
+    one where it does not ("N"); sentinels outside the root exist in both.  Keys Reinterp...  HOME and PWD point
+    at the package directory meanwhile, so that an expanding helper would reach a sentinel."""
+    raws_n = ps.reinterp_raws(probe, deep=not ctx.quick)
+    lit, raws_l = ps.literal_tree(os.path.join(ctx.tmp, "e2e-literal"), deep=not ctx.quick)
+    apis = list(ps.APIS) + (["sfd_pathlike", "sfd_cwd", "sdm_nocache", "sdm_pkg_all"] if not ctx.quick else ["sfd_cwd"])
+    stats = {}
+    saved = {k: os.environ.get(k) for k in ("HOME", "PWD")}
+    try:
+        for name, tree, raws in (("L", lit, raws_l), ("N", probe, raws_n)):
+            if only is not None and only["tree"] != name:
+                continue
+            os.environ["HOME"] = os.environ["PWD"] = tree.pkgdir
+            if only is not None:
+                raw = only["raw"].replace("{BASE}", tree.base).replace("{QBASE}", tree.base.replace("/", "%2F"))
+                targets = [(only["api"], raw), (only["api"], "a.txt"), (only["api"], "nothing-here")]
+            else:
+                targets = [(api, raw) for api in apis for raw in raws]
+            stats[name] = judge_serves(ctx, targets, tree, kind="reinterp", prefix="Reinterp", case_extra={"tree": name})
+    finally:
+        for k, v in saved.items():
+            if v is None:
+                os.environ.pop(k, None)
+            else:
+                os.environ[k] = v
+    if only is None:
+        n_lit = len(lit.files) - (len(ps.TREE_FILES) - 2)
+        stats["literal_files_inside_root"] = n_lit
+        stats["literal_names_not_creatable"] = len(lit.not_created)
+        stats["spellings"] = len(raws_n)
+        if n_lit < 50 or stats["L"]["200"] <= stats["N"]["200"]:
+            raise MachineryError(f"reinterpretation driver is vacuous (literal files are not served): {stats}")
+        # the same texts handed directly to safe_join (no server in between), once and twice decoded
+        texts = sorted({t for r in raws_n for t in (r, ps.unquote_to_bytes(r).decode("utf-8", "replace"),
+                                                  ps.unquote_to_bytes(ps.unquote_to_bytes(r)).decode("utf-8", "replace"))})
+        cases = [[b, [t]] for b in ps.BASES[:4] for t in texts] + [[b, ["sub", t]] for b in ps.BASES[:2] for t in texts]
+        stats["safe_join_direct"] = judge_joins(ctx, cases, kind="join", prefix="Reinterp")
+    return stats
+
+
 # --------------------------------------------------------------------------- the repository's own tests
 REPO_TEST_FILES = ["tests/test_security.py", "tests/test_utils.py", "tests/test_send_file.py",
                    "tests/middleware/test_shared_data.py", "tests/test_datastructures.py"]
@@ -389,6 +432,8 @@ def run(ctx: Ctx):
     # growth: every loader kind / option / argument type under the same containment clause (keys Loaders...)
     ctx.notes["loader_outcomes"] = judge_serves(ctx, loader_targets(ctx, probe), probe, kind="serve", prefix="Loaders")
     observations(ctx, probe)
+    # reinterpretable spellings x (literal name exists inside / only the reinterpreted name exists outside)
+    ctx.notes["reinterp_outcomes"] = reinterp_requests(ctx, probe)
     # secure_filename
     cases, n_model = san_cases(ctx)
     ctx.notes["filename_cases_from_model"] = n_model
@@ -403,6 +448,8 @@ def replay(ctx: Ctx, data):
     ctx.sample(case)
     if kind == "repotests":
         repo_test_traces(ctx, only_test=case["test"], kind=kind)
+    elif kind == "reinterp":
+        reinterp_requests(ctx, ps.Tree(os.path.join(ctx.tmp, "e2e-probe")), only=case)
     elif kind == "join":
         judge_joins(ctx, [[case["dir"], case["parts"]]], kind)
     elif kind == "san":
